@@ -65,7 +65,8 @@ CanAppend(o, x) == o.t = <<>> \/ o.t[Len(o.t)] < x
 IsCall(st) == st.op = "call"
 \* is the step possible in heap h (the generator enumerates only such steps, the trace specification insists on it)
 StepEnabled(h, st) ==
-    CASE st.op \in {"call", "resedit"} -> TRUE
+    CASE st.op = "resedit" -> TRUE
+      [] st.op = "call"    -> ("slot" \in DOMAIN st.pol) => (st.pol.slot \in 1..Len(h.ops))
       [] st.op = "redate"  -> st.slot \in 1..Len(h.ops)
       [] st.op = "append"  -> st.slot \in 1..Len(h.ops) /\ CanAppend(h.ops[st.slot], st.x)
       [] st.op \in {"drop", "setcell"} -> st.slot \in 1..Len(h.ops) /\ st.p \in 1..Len(h.ops[st.slot].t)
@@ -86,11 +87,16 @@ HeapStep(h, st) ==
 RECURSIVE HeapAfter(_, _, _)
 HeapAfter(h0, steps, n) == IF n = 0 THEN h0 ELSE HeapStep(HeapAfter(h0, steps, n - 1), steps[n])
 
+\* The join policy of a call: ij / oj / lj / rj, or "the index explicitly supplied" given as ONE OF THE CALLER'S TIMESERIES
+\* (a timeseries stands for its index): [how |-> "ex", t |-> <<>>, slot |-> n] - the object of slot n is then handed to
+\* two parameters of one call; the index supplied is the one that object has at the moment of the call.
+SessPol(h, st) == IF "slot" \in DOMAIN st.pol THEN [how |-> "ex", t |-> h.ops[st.pol.slot].t] ELSE st.pol
+
 \* ---- what a call in heap h must yield ---------------------------------------------------------------
 \* (the outcome sets of SyncLaw on the collection as it is now, under the method the method object stands for now)
 CallTree(h) == TreeOf(h)
 CallMeth(h) == MethOf(h.meth)
-SessSyncOutcomes(h, st) == SyncOutcomesX(CallTree(h), st.pol, CallMeth(h), IF st.api = "reindex" THEN NoCols ELSE st.cols)
-SessPresyncOutcomes(h, st) == PresyncOutcomesX(CallTree(h), st.pol, CallMeth(h), st.cols)
-SessJointOutcome(h, st) == JointOutcome(CallTree(h), st.pol)
+SessSyncOutcomes(h, st) == SyncOutcomesX(CallTree(h), SessPol(h, st), CallMeth(h), IF st.api = "reindex" THEN NoCols ELSE st.cols)
+SessPresyncOutcomes(h, st) == PresyncOutcomesX(CallTree(h), SessPol(h, st), CallMeth(h), st.cols)
+SessJointOutcome(h, st) == JointOutcome(CallTree(h), SessPol(h, st))
 =============================================================================
